@@ -366,9 +366,13 @@ HARNESSES['h_par'] = dict(src='h_par.cpp', deps=['harness/h_ntt.cpp', 'harness/h
 
 PROPS['C12'] = dict(
     title='Parallel regions are race-free; results independent of threads and schedule',
-    jobs=[J('h_par', 'shim5', 60_000, 6_000_000, wq=8, wt=16, args=['--mode', 'seq'], tag='seq', class_prefix='seq:'),
-          J('h_par', 'tsan2', 2400, 160_000, wq=16, wt=16, args=['--mode', 'threads'], tag='tsan', class_prefix='tsan:'),
-          J('h_par', 'fast5', 6000, 600_000, wq=8, wt=16, args=['--mode', 'gomp'], tag='gomp', class_prefix='gomp:')],
+    jobs=[J('h_par', 'shim5', 60_000, 6_000_000, only='c12.transform,c12.merkle,c12.par', wq=8, wt=16, args=['--mode', 'seq'], tag='seq', class_prefix='seq:'),
+          J('h_par', 'tsan2', 2400, 160_000, only='c12.transform,c12.merkle,c12.par', wq=16, wt=16, args=['--mode', 'threads'], tag='tsan', class_prefix='tsan:'),
+          J('h_par', 'fast5', 6000, 600_000, only='c12.transform,c12.merkle,c12.par', wq=8, wt=16, args=['--mode', 'gomp'], tag='gomp', class_prefix='gomp:'),
+          # cold starts: one forked child per case whose FIRST library call is the team execution (lazy first-use initialisation under concurrency);
+          # separate processes, because a process that has already run OpenMP regions must not fork
+          J('h_par', 'tsan2', 160, 16_000, only='c12.cold', wq=8, wt=16, args=['--mode', 'threads'], tag='cold-tsan', class_prefix='tsan:'),
+          J('h_par', 'fast5', 320, 32_000, only='c12.cold', wq=8, wt=16, args=['--mode', 'gomp'], tag='cold-gomp', class_prefix='gomp:')],
     rule='The library is linked against a stand-in for libgomp (engine/ompshim.cpp; g++ needs only GOMP_parallel and five omp_* calls) so the harness owns the schedule. rapidcheck generates routine x shape x team size x member order: '
          'routine in {NTT, INTT, extendPol (C03-C05 configuration generator up to n=2^9), the eight Merkle builders (rows to 2^6, cols to 20, dim 1..3, batch sizes), parcpy, parSetZero (sizes to 5000)}, '
          'team size in {1..6,8,17,64} (fewer, equal, more members than loop iterations), member order in {identity, reversed, random permutation per region}. '
@@ -377,7 +381,9 @@ PROPS['C12'] = dict(
          'Oracle: output buffers bit-identical to the single-member execution (which itself is checked against the C03-C05 oracle for the transforms); zero TSan reports. '
          'Non-trivial: team size > 1 and at least one parallel region actually executed with more than one member. distinct = distinct (routine, shape, team, order) tuples.',
     expected_classes=['seq:team>1:sequential-permuted-order', 'tsan:team>1:pthreads(TSan)', 'gomp:team>1:real-libgomp', 'seq:routine:transform', 'seq:routine:merkle', 'seq:routine:parcpy/parSetZero',
-                      'tsan:routine:transform', 'tsan:routine:merkle', 'tsan:routine:parcpy/parSetZero', 'seq:order:reversed', 'seq:order:random-permutation', 'seq:team:more-members-than-cores/iterations'],
+                      'tsan:routine:transform', 'tsan:routine:merkle', 'tsan:routine:parcpy/parSetZero', 'seq:order:reversed', 'seq:order:random-permutation', 'seq:team:more-members-than-cores/iterations',
+                      'seq:team:fewer-members-delivered-than-requested', 'tsan:cold-start:team-run-first', 'gomp:cold-start:team-run-first',
+                      'tsan:transform:in-place-bit-reversal-path', 'tsan:transform:ncols>1024'],
     technique='schedule-controlled property-based testing: OpenMP runtime stand-in (permuted sequential member orders; pthreads under ThreadSanitizer), differential against single-member execution',
     level_text='The harness owns the schedule: thousands of generated member orders per run must reproduce the single-thread output bit for bit, and ThreadSanitizer watches real threads created by the stand-in on the same shapes.',
     level_note='Trusted: ThreadSanitizer (sees only accesses that executed), the stand-in implements the six runtime entry points g++ emits for these regions (static schedules are inlined by the compiler). Sequential orders do not explore sub-member interleavings; that half is TSan\'s.',
